@@ -155,6 +155,10 @@ impl FromStr for HandRangeToken {
             && s[3..4] == s[4..5]
         {
             if let (Ok(top), Ok(bottom)) = (Rank::from_str(&s[0..1]), Rank::from_str(&s[3..4])) {
+                if top > bottom {
+                    return Err(());
+                }
+
                 return Ok(HandRangeToken::new(
                     HandRangeTokenKind::DoubleClosedRankPairRange(RankPair::Pocket(top), bottom),
                     parse_probability(&s[5..]),
@@ -207,6 +211,10 @@ impl FromStr for HandRangeToken {
             if let (Ok(high), Ok(kicker_bottom)) =
                 (Rank::from_str(&s[0..1]), Rank::from_str(&s[1..2]))
             {
+                if high > kicker_bottom {
+                    return Err(());
+                }
+
                 if &s[2..3] == "s" {
                     return Ok(HandRangeToken::new(
                         HandRangeTokenKind::BottomClosedRankPairRange(RankPair::Suited(
